@@ -1,20 +1,14 @@
-"""Per-property configuration of tools/check.py (scenarios are in /verif/scen)."""
+"""Per-property configuration of tools/check.py: one JSON file per property in /verif/props
+(scenarios are in /verif/scen).  Keys: level_text, mc{quick,thorough}, live{...}, scenarios{...},
+seeds{...}, mc_timeout{...}, assumptions[], technique, level_note."""
+import glob, json, os
 
-PROPS = {
-    "C03": {
-        "level_text": "The PlusCal model of the runtime core + mutex (spec/core/FiberCore.tmpl) is model-checked exhaustively by TLC for 2 kernel threads / 2 fibers (mutual exclusion, one hand-off per unlock, no fiber blocked at quiescence) and every recorded execution of the real fiber_mutex_* code under seeded controlled schedules (2-3 kernel threads, 2-3 fibers, lock/trylock/unlock) is validated by TLC as a behaviour of that spec, with an API-level AtomicLock monitor evaluated on the call/return history.",
-        "mc": {"quick": ["core_mutex2"], "thorough": ["core_mutex2", "core_mutex3"]},
-        "scenarios": {"quick": ["core_mutex2", "mutex_t3"], "thorough": ["core_mutex2", "mutex_t3", "mutex_try"]},
-        "seeds": {"quick": 40, "thorough": 500},
-    },
-}
-
-PROPS["C15"] = {
-    "level_text": "PlusCal models of the MPSC, SPSC and relaxed-MPSC queues with node identities are model-checked exhaustively (2-3 producers x 2 items, consumer interleaved at every atomic step: each item popped once, per-producer order, abstract-queue refinement); recorded executions of the real inline queue code under seeded controlled schedules are validated step by step against the models, and the call/return history is checked by a queue monitor (exactly-once, per-producer FIFO, real-time order for the strict MPSC queue, legality of every empty result).",
-    "mc": {"quick": ["mpsc_2p"], "thorough": ["mpsc_2p", "mpsc_3p"]},
-    "scenarios": {"quick": ["mpsc_2p"], "thorough": ["mpsc_2p", "mpsc_3p"]},
-    "seeds": {"quick": 60, "thorough": 1000},
-}
-
+ROOT = os.path.dirname(os.path.dirname(os.path.abspath(__file__)))
+PROPS = {}
+for _p in sorted(glob.glob(os.path.join(ROOT, "props", "C*.json"))):
+    PROPS[os.path.basename(_p)[:-5]] = json.load(open(_p))
 ALL = ["C%02d" % i for i in range(1, 21)]
-NOT_CLAIMED = {p: "check not yet built in this revision of /verif (model-based check under construction; see DESIGN.md section 10)" for p in ALL if p not in PROPS}
+_NA = os.path.join(ROOT, "props", "not_claimed.json")
+_reasons = json.load(open(_NA)) if os.path.exists(_NA) else {}
+NOT_CLAIMED = {p: _reasons.get(p, "check not yet built in this revision of /verif (model-based check under construction; see DESIGN.md section 10)")
+               for p in ALL if p not in PROPS}
